@@ -238,6 +238,8 @@ def check_process(case):
     if e1 != e2:
         raise Discard("exit flip between twins")
     if is_raised(a) != is_raised(b):
+        if procs.lookahead_borderline(b if is_raised(a) else a, case["area"], dt):
+            raise Discard("one twin raised on a rounding-borderline (exhausted / run-away) look-ahead state")
         raise Violation("%s: %s with the mass-fraction initial feed but %s with the equivalent mole-fraction one"
                         % (case["kind"], "raised %r" % a if is_raised(a) else "returned", "raised %r" % b if is_raised(b) else "returned"))
     if not all(math.isfinite(float(v)) for v in list(a.feed_mass) + list(a.feed_temperature)):
